@@ -41,6 +41,7 @@ Proof.
   - revert Hsid. destruct (Z.geb (h_Version (f_Header f)) 3); intro; lia.
   - apply Bool.eqb_prop. assumption.
   - lia.
+  - assumption.
   - unfold has_tracing_id.
     destruct (has (h_Flags (f_Header f)) HeaderFlagTracing && msg_is_response (bd_Message (f_Body f))).
     + destruct (bd_TracingId (f_Body f)) as [u|]; [|discriminate]. exists u. split; [reflexivity|lia].
@@ -75,13 +76,13 @@ Theorem frame_codec_plain comp f :
      uncompressed_body_length the_msg_codec (f_Header f) (f_Body f) = Ok (zlen body) /\
      forall rest, decode_frame the_msg_codec comp (encoded_plain f mb ++ rest) = DOk (frame_normal f (zlen body)) rest).
 Proof.
-  intros Hv Hnc. pose proof Hv as (Hs & _ & _ & _ & _ & (_ & _ & _ & Hm)).
+  intros Hv Hnc. pose proof Hv as (Hs & _ & _ & _ & _ & _ & (_ & _ & _ & Hm)).
   destruct (H_rt_concrete _ _ Hs Hm) as (mb & Hmb & _). exists mb. split; [exact Hmb|]. intros body Hsmall.
   destruct (frame_roundtrip_plain the_msg_codec msg_ok norm_message H_rt_concrete H_len_concrete comp f mb Hv Hnc Hmb Hsmall) as [He Hd].
   split; [exact He|]. split.
   - unfold encoded_plain. rewrite zlen_app, hdr_len. cbn [with_body_length h_Version]. reflexivity.
   - split; [|exact Hd].
-    pose proof Hv as (_ & _ & _ & _ & _ & Hb).
+    pose proof Hv as (_ & _ & _ & _ & _ & _ & Hb).
     eapply uncompressed_body_length_ok; try first [exact H_rt_concrete | exact H_len_concrete]; eassumption.
 Qed.
 
@@ -95,7 +96,7 @@ Theorem frame_codec_compressed c f :
      forall rest, decode_frame the_msg_codec (Some c) ((hdr_bytes (with_body_length (f_Header f) (zlen y)) ++ y) ++ rest)
                   = DOk (frame_normal f (zlen y)) rest).
 Proof.
-  intros Hv Hc Hloss. pose proof Hv as (Hs & _ & _ & _ & _ & (_ & _ & _ & Hm)).
+  intros Hv Hc Hloss. pose proof Hv as (Hs & _ & _ & _ & _ & _ & (_ & _ & _ & Hm)).
   destruct (H_rt_concrete _ _ Hs Hm) as (mb & Hmb & _).
   destruct (Hloss (body_bytes (f_Header f) (f_Body f) mb)) as (y & Hy & _).
   exists mb, y. split; [exact Hmb|]. split; [exact Hy|]. intro Hsmall.
@@ -143,7 +144,7 @@ Theorem raw_paths_agree comp f mb :
 Proof.
   intros (Hv & Hnc & Hmb & Hsmall). cbv zeta.
   set (body := body_bytes (f_Header f) (f_Body f) mb) in *. set (h' := with_body_length (f_Header f) (zlen body)).
-  pose proof Hv as (Hs & Hf & Hsid & Hr & Hop & Hb).
+  pose proof Hv as (Hs & Hf & Hsid & Hr & Hop & Hdse & Hb).
   assert (Hn : in_i32 (zlen body)) by (unfold in_i32; pose proof (zlen_nonneg body); lia).
   Ltac hyps := first [exact H_rt_concrete | exact H_len_concrete].
   assert (Hh : header_ok h').
@@ -181,6 +182,7 @@ Proof.
   apply total_bind; [apply total_read_stream_id|intro sid].
   apply total_bind; [apply total_read_byte|intro op].
   apply total_bind; [apply total_read_int|intro len].
+  apply total_bind; [apply total_rguard|intros _].
   apply total_bind; [apply total_rguard|intros _].
   apply total_bind; [apply total_rguard|intros _].
   apply total_ret.
